@@ -81,10 +81,19 @@ fn cxfun(t: &mut Toks, cx: &mut Ctx) -> String {
     let cond = 1e-8 / d1.min(di).min(1.0).max(1e-3);
     let a = get("asin"); cx.check(close(a.sin(), z, cond), "sin(asin z) != z"); cx.check(a.real >= -PI / 2.0 - 1e-9 && a.real <= PI / 2.0 + 1e-9, "Re asin z outside [-pi/2, pi/2]");
     let a = get("acos"); cx.check(close(a.cos(), z, cond), "cos(acos z) != z"); cx.check(a.real >= -1e-9 && a.real <= PI + 1e-9, "Re acos z outside [0, pi]");
-    if di > 1e-3 { let a = get("atan"); cx.check(close(a.tan(), z, cond), "tan(atan z) != z"); }
-    let a = get("asinh"); cx.check(close(a.sinh(), z, cond), "sinh(asinh z) != z");
+    if di > 1e-3 { let a = get("atan"); cx.check(close(a.tan(), z, cond), "tan(atan z) != z"); cx.check(a.real.abs() <= PI / 2.0 + 1e-9, "Re atan z outside [-pi/2, pi/2] (not the principal branch)"); }
+    let a = get("asinh"); cx.check(close(a.sinh(), z, cond), "sinh(asinh z) != z"); cx.check(a.imag.abs() <= PI / 2.0 + 1e-9, "Im asinh z outside [-pi/2, pi/2] (not the principal branch)");
     let a = get("acosh"); cx.check(close(a.cosh(), z, cond), "cosh(acosh z) != z");
-    if d1 > 1e-3 { let a = get("atanh"); cx.check(close(a.tanh(), z, cond), "tanh(atanh z) != z"); }
+    // principal branch of acosh: Re >= 0, Im in (-pi, pi] (a right inverse alone does not fix the branch: -acosh z is one too)
+    cx.check(a.real >= -1e-9 * (1.0 + r), "Re acosh z < 0 (not the principal branch)"); cx.check(a.imag > -PI - 1e-15 && a.imag <= PI + 1e-15, "Im acosh z outside (-pi, pi]");
+    if d1 > 1e-3 { let a = get("atanh"); cx.check(close(a.tanh(), z, cond), "tanh(atanh z) != z"); cx.check(a.imag.abs() <= PI / 2.0 + 1e-9, "Im atanh z outside [-pi/2, pi/2] (not the principal branch)"); }
+    // conjugate symmetry f(conj z) = conj f(z), which holds off the branch cuts (strictly inside a quadrant): it pins the
+    // branch on both sides of every cut without knowing a closed form
+    if z.real != 0.0 && z.imag != 0.0 && z.real.abs() > 1e-9 && z.imag.abs() > 1e-9 {
+        let zc = Cmplx::new(z.real, -z.imag);
+        for (name, v, vc) in [("asin", get("asin"), zc.asin()), ("acos", get("acos"), zc.acos()), ("atan", get("atan"), zc.atan()), ("asinh", get("asinh"), zc.asinh()), ("acosh", get("acosh"), zc.acosh()), ("atanh", get("atanh"), zc.atanh()), ("sqrt", get("sqrt"), zc.sqrt()), ("ln", get("ln"), zc.ln())] {
+            if v.real.is_finite() && v.imag.is_finite() { cx.check(cabs(Cmplx::new(vc.real, -vc.imag) - v) <= 1e-9 * (1.0 + cabs(v)) / d1.min(di).min(1.0).max(1e-3), &format!("{}(conj z) != conj {}(z) off the branch cuts", name, name)); } }
+    }
     // small arguments (1e-3 <= |z| <= 1/2): the odd functions f(z) = z + O(z^3) and their inverses are held to a
     // RELATIVE accuracy, against their Maclaurin series and as right inverses (an absolute tolerance would let an
     // error of relative size |z|^4 pass unseen near the origin)
@@ -111,6 +120,7 @@ fn cxfun(t: &mut Toks, cx: &mut Ctx) -> String {
         cx.check(close(get("acsc").sin() * z, one, condi * (1.0 + r)), "csc(acsc z) != z");
         if dii > 1e-3 { cx.check(close(get("acot").tan() * z, one, condi * (1.0 + r)), "cot(acot z) != z"); }
         cx.check(close(get("asech").cosh() * z, one, condi * (1.0 + r)), "sech(asech z) != z");
+        cx.check(get("asech").real >= -1e-9 * (1.0 + 1.0 / r), "Re asech z < 0 (not the principal branch)");
         cx.check(close(get("acsch").sinh() * z, one, condi * (1.0 + r)), "csch(acsch z) != z");
         if d1i > 1e-3 { cx.check(close(get("acoth").tanh() * z, one, condi * (1.0 + r)), "coth(acoth z) != z"); }
     }
